@@ -5,6 +5,8 @@ on short synthetic recordings, with the file reads / writes of every worker obse
 outside (voltage.open and spikeglx.Reader are wrapped for the duration of a run; /repo is
 not edited)."""
 import builtins
+import contextlib
+import io
 import json
 import os
 import re
@@ -25,7 +27,10 @@ HEADER = "From Coq Require Import ZArith List.\nImport ListNotations.\nFrom IBL.
 T = 1024          # SAMPLES_TAPER, a constant of the source
 FS = 30000.0
 TRUSTED = [
-    "Coq 8.16.1 kernel + vm_compute (no native_compute); all C06 theorems: Closed under the global context",
+    "Coq 8.16.1 kernel + vm_compute (no native_compute); C06 theorems 1-11: Closed under the global context; "
+    "C06_sync_cast_exact (Flocq): the four standard-library axioms of the classical reals / funext",
+    "coq/C06/SyncSweep.v (exhaustive vm_compute over the 65536 int16 values) is kernel-checked by coqc in the build; "
+    "the independent checker coqchk (thorough tier) takes that one module as given (-admit)",
     "hand-written model coq/C06/Model.v of the index/offset bookkeeping of ibldsp.voltage.decompress_destripe_cbin "
     "(my_function), tied to the source by this run's correspondence (per-worker reads and writes observed)",
     "cell contents are abstract in the theorems: a cell holds (batch, local row, byte in row); that equal descriptors "
@@ -133,6 +138,13 @@ def make_recording(folder, scn):
     binf = folder / "rec.ap.bin"
     data.tofile(binf)
     write_meta(folder / "rec.ap.meta", scn["ns"], scn["ncv"])
+    if scn.get("src") == "cbin":                # mtscomp-compressed source (.cbin + .ch), original removed
+        import spikeglx
+        with contextlib.redirect_stderr(io.StringIO()), contextlib.redirect_stdout(io.StringIO()):
+            sr = spikeglx.Reader(binf)
+            sr.compress_file(keep_original=False)
+            sr.close()
+        binf = binf.with_suffix(".cbin")
     return binf, data, sat
 
 
@@ -205,6 +217,54 @@ class _FileProxy:
         self.close()
 
 
+class _SatProxy:
+    """Wraps the r+ memmap of the saturation vector: slice assignments are applied under the tap's
+    lock and logged with a global sequence number (so the log order is the write order)."""
+
+    def __init__(self, arr, tap):
+        self._arr, self._tap = arr, tap
+
+    def __setitem__(self, key, value):
+        tap = self._tap
+        sess = tap._cur.get(threading.get_ident())
+        with tap._lock:
+            seq = tap._seq
+            tap._seq += 1
+            self._arr[key] = value
+        if sess is not None and isinstance(key, slice):
+            a, b, st = key.indices(len(self._arr))
+            sess["ops"].append(("sat", int(a), int(b), seq, np.array(value, dtype=bool).copy()))
+        elif sess is not None:
+            sess["ops"].append(("sat", -1, -1, seq, None))
+
+    def __getitem__(self, key):
+        return self._arr[key]
+
+    def __len__(self):
+        return len(self._arr)
+
+    def __getattr__(self, name):
+        return getattr(self._arr, name)
+
+
+class _NpShim:
+    """Stands for the numpy module inside ibldsp.voltage while a Tap is active: everything is
+    numpy's, except that np.load(<saturation file>, mmap_mode='r+') returns a logging proxy."""
+
+    def __init__(self, tap):
+        self._tap = tap
+
+    def __getattr__(self, name):
+        return getattr(np, name)
+
+    def load(self, file, *a, **kw):
+        arr = np.load(file, *a, **kw)
+        if kw.get("mmap_mode") == "r+" and isinstance(file, (str, Path)) \
+                and self._tap.watched.get(str(Path(file))) == "sat":
+            return _SatProxy(arr, self._tap)
+        return arr
+
+
 class Tap:
     """Context manager: while active, every spikeglx.Reader created starts a 'session' in its
     thread; reads through Reader.__getitem__ and writes through files opened 'r+b' by
@@ -215,6 +275,7 @@ class Tap:
         self.sessions = []
         self._cur = {}
         self._lock = threading.Lock()
+        self._seq = 0
 
     def __enter__(self):
         import spikeglx
@@ -253,11 +314,14 @@ class Tap:
         spikeglx.Reader.__init__ = init
         spikeglx.Reader.__getitem__ = getitem
         voltage.open = tap_open
+        self._orig_np = voltage.np
+        voltage.np = _NpShim(self)
         return self
 
     def __exit__(self, *a):
         self._spikeglx.Reader.__init__ = self._orig_init
         self._spikeglx.Reader.__getitem__ = self._orig_getitem
+        self._voltage.np = self._orig_np
         if self._had_open:
             self._voltage.open = self._orig_open
         else:
@@ -272,7 +336,7 @@ def canon_sessions(tap, ncv):
     n_idle = 0
     for sess in tap.sessions:
         ops = sess["ops"]
-        kinds = {o[1] for o in ops if o[0] in ("write", "seek")}
+        kinds = {o[1] for o in ops if o[0] in ("write", "seek", "sat")}
         if not kinds:
             n_idle += 1
             continue
@@ -287,6 +351,11 @@ def canon_sessions(tap, ncv):
                     batches.append(cur)
                 elif cur is None or (o[1], o[2]) != (cur["first"], cur["last"]):
                     bad.append("sync read %r outside the current batch" % (o,))
+            elif o[0] == "sat":
+                if cur is None or "sat" in cur:
+                    bad.append("saturation assignment outside a batch / twice in a batch")
+                else:
+                    cur["sat"] = (o[1], o[2], o[3], o[4])
             elif o[0] == "write":
                 if cur is None:
                     bad.append("write before any read")
@@ -309,12 +378,16 @@ def canon_sessions(tap, ncv):
 def call_impl(binf, outf, scn, nproc, backend, append=False, nbatch=None, ns2add=None):
     import joblib
     from ibldsp import voltage
+    if scn.get("aspath") is False:               # str instead of pathlib.Path
+        binf, outf = str(binf), str(outf)
     kw = dict(nprocesses=nproc, nbatch=nbatch or scn["nbatch"], ns2add=scn["ns2add"] if ns2add is None else ns2add,
               reject_channels=scn["reject"], k_filter=scn["k_filter"], append=append, wrot=make_wrot(scn))
     if scn.get("nc_out") is not None:
         kw["nc_out"] = scn["nc_out"]
     if scn.get("dtype", "int16") != "int16":
         kw["dtype"] = getattr(np, scn["dtype"])
+    if scn.get("compute_rms") is False:
+        kw["compute_rms"] = False
     with warnings.catch_warnings():
         warnings.simplefilter("ignore")
         with joblib.parallel_config(backend=backend):
@@ -325,8 +398,9 @@ def observe(binf, outdir, scn, nproc, backend, append=False, nbatch=None, ns2add
     """One real run.  Returns dict with bytes / QC / (threading backend only) per-worker events."""
     outdir.mkdir(parents=True, exist_ok=True)
     outf = outdir / "out.bin"
-    watched = {outf: "out", outdir / "ap_rms.bin": "rms", outdir / "ap_time.bin": "time"}
-    pre = {k: (Path(p).stat().st_size if Path(p).exists() else 0) for p, k in watched.items()}
+    watched = {outf: "out", outdir / "ap_rms.bin": "rms", outdir / "ap_time.bin": "time",
+               outdir / "_iblqc_ephysSaturation.samples.npy": "sat"}
+    pre = {k: (Path(p).stat().st_size if Path(p).exists() else 0) for p, k in watched.items() if k != "sat"}
     res = {"P": nproc, "backend": backend, "append": append, "pre": pre}
     t0 = time.time()
     try:
@@ -342,7 +416,9 @@ def observe(binf, outdir, scn, nproc, backend, append=False, nbatch=None, ns2add
         return res
     res["wall"] = time.time() - t0
     res["raw"] = np.fromfile(outf, dtype=np.uint8)
-    res["size"] = {k: Path(p).stat().st_size for p, k in watched.items()}
+    res["size"] = {k: Path(p).stat().st_size for p, k in watched.items() if k != "sat"}
+    if scn.get("compute_rms") is False:
+        return res
     res["sat"] = np.load(outdir / "_iblqc_ephysSaturation.samples.npy")
     res["rms"] = np.load(outdir / "_iblqc_ephysTimeRmsAP.rms.npy")
     res["times"] = np.load(outdir / "_iblqc_ephysTimeRmsAP.timestamps.npy")
@@ -387,6 +463,7 @@ def reference(binf, scn, nbatch=None, t0=0.0):
             sat, mute = voltage.saturation(data=chunk, max_voltage=sr.range_volts[:ncv], fs=sr.fs)
             chunk[:, :T] *= taper[:T]
             chunk[:, -T:] *= taper[T:]
+            sat_tap, _ = voltage.saturation(data=chunk, max_voltage=sr.range_volts[:ncv], fs=sr.fs)
             chunk = scipy.signal.sosfiltfilt(sos, chunk)
             if ls == sr.ns:
                 chunk = fourier.fshift(chunk, s=h["sample_shift"])
@@ -405,7 +482,7 @@ def reference(binf, scn, nbatch=None, t0=0.0):
             if wrot is not None:
                 full[:, :ncv] = np.dot(full[:, :ncv], wrot)
             out.append({"first": fs, "last": ls, "lo": lo, "hi": hi, "full": full.astype(dtype),
-                        "sat": np.asarray(sat), "rms": rms, "t": tstamp})
+                        "sat": np.asarray(sat), "sat_tap": np.asarray(sat_tap), "rms": rms, "t": tstamp})
     sr.close()
     return out
 
@@ -440,7 +517,30 @@ def locate(full, rows, guess, ncv):
     return guess if guess in hits else hits[0]
 
 
-def enc_impl(obs, ref, out_rows, offset, rowbytes, ncv, P):
+def sat_stage(b, r):
+    """Which input of saturation() explains the verdict a batch assigned: 0 = the chunk as read
+    (raw), 1 = only the tapered chunk, -1 = neither / wrong slice."""
+    sat = b.get("sat")
+    if sat is None or r is None or (sat[0], sat[1]) != (b["first"], b["last"]) or sat[3] is None \
+            or sat[3].shape != r["sat"].shape:
+        return -1
+    if np.array_equal(sat[3], r["sat"]):
+        return 0
+    return 1 if np.array_equal(sat[3], r["sat_tap"]) else -1
+
+
+def pick_probes(ref, ns):
+    """samples at which the saturation bookkeeping is reported: around the read ranges' ends."""
+    ks = sorted(set(list(range(min(3, len(ref)))) + list(range(max(0, len(ref) - 3), len(ref)))
+                    + [len(ref) // 2]))
+    pr = {0, ns - 1}
+    for k in ks:
+        r = ref[k]
+        pr |= {r["first"] - 1, r["first"], r["first"] + T, r["last"] - T, r["last"] - 1, r["last"]}
+    return sorted(g for g in pr if 0 <= g < ns)[:40]
+
+
+def enc_impl(obs, ref, out_rows, offset, rowbytes, ncv, P, probes=()):
     """The implementation's observation, in the model's layout.  Local row indices (e_lo, p_src)
     are measured by locating the written rows inside the batch's in-memory result."""
     refby = {r["first"]: r for r in ref}
@@ -457,7 +557,8 @@ def enc_impl(obs, ref, out_rows, offset, rowbytes, ncv, P):
             lo = -1
             if r is not None and cnt >= 0 and row0 >= 0:
                 lo = locate(r["full"][:, :out_rows.shape[1]], out_rows[row0:row0 + cnt], row0 - b["first"], ncv)
-            evs.append([b["first"], b["last"], pos, lo, cnt, b.get("rms", (-1, 0))[0], b.get("time", (-1, 0))[0]])
+            evs.append([b["first"], b["last"], pos, lo, cnt, b.get("rms", (-1, 0))[0], b.get("time", (-1, 0))[0],
+                        sat_stage(b, r)])
             batches[b["first"]] = [b["first"], b["last"], row0, row0 + cnt, lo]
         pads = []
         if w["pad"] is not None:
@@ -477,8 +578,19 @@ def enc_impl(obs, ref, out_rows, offset, rowbytes, ncv, P):
         flat_w.append([0, len(evs)] + [x for e in evs for x in e] + [len(pads)] + [x for p in pads for x in p])
     flat_w += [[0, 0, 0]] * obs["n_idle_workers"]
     bl = [batches[k] for k in sorted(batches)]
+    # saturation vector: observed slice assignments (any worker) covering each probe
+    sat_ops = [b["sat"] + (b["first"],) for w in workers for b in w["batches"] if b.get("sat") is not None]
+    pl = []
+    for g in probes:
+        cov = [o for o in sat_ops if o[0] <= g < o[1]]
+        if not cov:
+            pl.append([-1, -1, -1])
+        else:
+            winner = max(cov, key=lambda o: o[2])[0] if P == 1 else -2
+            pl.append([min(o[0] for o in cov), max(o[0] for o in cov), winner])
     return ([len(bl), obs["size"]["out"], obs["size"]["rms"], obs["size"]["time"], len(flat_w)]
-            + [x for w in flat_w for x in w] + [len(bl)] + [x for b in bl for x in b])
+            + [x for w in flat_w for x in w] + [len(bl)] + [x for b in bl for x in b]
+            + [len(pl)] + [x for q in pl for x in q])
 
 
 # --------------------------------------------------------------------------
@@ -491,7 +603,7 @@ def gen_scenarios(ctx):
     def scn(ns, nb, ps, **kw):
         d = {"ns": int(ns), "nbatch": int(nb), "ps": list(ps), "ncv": 8, "ns2add": 0, "reject": False,
              "k_filter": False, "wrot": None, "nc_out": None, "dtype": "int16", "sat": True,
-             "seed": rng.randrange(1 << 30), "append": None, "loky": []}
+             "seed": rng.randrange(1 << 30), "append": None, "loky": [], "src": "bin", "aspath": True}
         d.update(kw)
         scns.append(d)
         return d
@@ -536,7 +648,8 @@ def gen_scenarios(ctx):
         d = scn(ns, nb, ps, ns2add=rng.choice([0, 0, 1, 7, 100]),
                 wrot=rng.choice([None, None, "scalar", "perm"]),
                 nc_out=rng.choice([None, None, None, 8, 5]),
-                dtype="float32" if q % 7 == 6 else "int16")
+                dtype="float32" if q % 7 == 6 else ("int32" if q % 7 == 3 else "int16"),
+                src="cbin" if q % 4 == 2 else "bin", aspath=(q % 3 != 1))
         if q % 4 == 1:
             d["append"] = {"P": rng.randrange(1, 7), "nbatch": rng.choice([nb, 2304, 4096])}
     # --- medium stream: 64 channels, k-filter / CAR, channel rejection ---
@@ -548,7 +661,7 @@ def gen_scenarios(ctx):
         m = rng.randrange(1, max(2, min(lim, 30000 // s)))
         ns = max(9500, min(40000 if ctx.thorough() else 16000, boundary_ns(nb, m)))
         d = scn(ns, nb, some_ps(3), ncv=64, k_filter=(q % 3 != 2), reject=(q % 2 == 0),
-                ns2add=rng.choice([0, 5]), wrot=rng.choice([None, "perm"]))
+                ns2add=rng.choice([0, 5]), wrot=rng.choice([None, "perm"]), src="cbin" if q % 3 == 1 else "bin")
         if q == 0:
             d["loky"] = [rng.randrange(2, 7)]
             d["append"] = {"P": rng.randrange(2, 6), "nbatch": nb}
@@ -625,6 +738,24 @@ def check_run(ctx, scn, obs, data, ref, ref_prev, tags_base, cases, stats, nbatc
     if sat.shape != (ns,):
         fail("qc: saturation vector has shape %s, expected (%d,)" % (sat.shape, ns))
     else:
+        if obs["backend"] == "threading":
+            # exact: the file holds, at every sample, what the LAST observed assignment covering it wrote,
+            # and every assignment is saturation()'s verdict on the chunk as read (raw, before the taper)
+            ops = sorted((b["sat"] for w in obs["workers"] for b in w["batches"] if b.get("sat") is not None),
+                         key=lambda o: o[2])
+            last = np.zeros(ns, dtype=bool)
+            for a, b_, _, vals in ops:
+                if vals is not None and 0 <= a <= b_ <= ns and vals.shape == (b_ - a,):
+                    last[a:b_] = vals
+            if not np.array_equal(last, sat):
+                fail("qc: saturation file differs from the last-writer replay of the observed assignments at %d samples"
+                     % int((last != sat).sum()))
+            refby = {r["first"]: r for r in ref}
+            nraw = sum(1 for w in obs["workers"] for b in w["batches"] if sat_stage(b, refby.get(b["first"])) == 0)
+            nall = sum(len(w["batches"]) for w in obs["workers"])
+            if nraw != nall:
+                fail("qc: %d of %d saturation assignments are not saturation()'s verdict on the raw chunk "
+                     "[first_s:last_s] of their batch" % (nall - nraw, nall))
         cover = np.zeros(ns, dtype=bool)       # flag must be the value some covering batch computed
         for r in ref:
             cover[r["first"]:r["last"]] |= (sat[r["first"]:r["last"]] == r["sat"])
@@ -655,8 +786,9 @@ def check_run(ctx, scn, obs, data, ref, ref_prev, tags_base, cases, stats, nbatc
             obs["n_idle_workers"] = 0
         roff = obs["pre"]["rms"] if obs["append"] else 0
         toff = obs["pre"]["time"] if obs["append"] else 0
-        ci = enc_input(ns, nbatch, obs["P"], ns2add, offset, ncout, dtype.itemsize, ncv, roff, toff)
-        co = enc_impl(obs, ref, rows, offset, rowbytes, ncv, obs["P"])
+        probes = pick_probes(ref, ns)
+        ci = enc_input(ns, nbatch, obs["P"], ns2add, offset, ncout, dtype.itemsize, ncv, roff, toff) + probes
+        co = enc_impl(obs, ref, rows, offset, rowbytes, ncv, obs["P"], probes)
         cases.append((ci, co, inp))
     return rows
 
@@ -673,6 +805,9 @@ def run_scenario(ctx, scn, cases, stats, samples):
             ctx.fail("exception: building blocks raised %s: %s" % (type(e).__name__, e), scn_public(scn),
                      dict(tags_base, clause="exception"))
             return
+        stats["sat_raw_vs_tapered_samples"] = stats.get("sat_raw_vs_tapered_samples", 0) + \
+            sum(int(np.count_nonzero(r["sat"] != r["sat_tap"])) for r in ref)
+        stats["sat_flagged_samples"] = stats.get("sat_flagged_samples", 0) + sum(int(r["sat"].sum()) for r in ref)
         first_raw = None
         runs = [(p, "threading") for p in scn["ps"]] + [(p, "loky") for p in scn["loky"]]
         for (p, be) in runs:
@@ -733,7 +868,7 @@ def model_worker_status(out):
         st.append(out[i])
         if out[i] == 0:
             nev = out[i + 1]
-            i += 2 + 7 * nev
+            i += 2 + 8 * nev
             i += 1 + 4 * out[i]
         elif out[i] == 1:
             i += 2
@@ -770,9 +905,61 @@ def short_stream(ctx, stats):
                          % ("ValueError" if m_short else "ok", obs.get("error", "ok")[:80]), inp)
 
 
+def no_rms_run(ctx, stats):
+    """compute_rms=False (a documented switch): the output must equal the compute_rms=True output.
+    On the current tree the call raises NameError (known finding F-C06-d)."""
+    scn = {"ns": 5000, "nbatch": 3000, "ncv": 8, "ns2add": 0, "reject": False, "k_filter": False, "wrot": None,
+           "nc_out": None, "dtype": "int16", "sat": True, "seed": 77, "append": None}
+    tmp = common.tmpdir("C06_run_")
+    try:
+        binf, data, _ = make_recording(tmp / "src", scn)
+        a = observe(binf, tmp / "a", scn, 2, "threading")
+        b = observe(binf, tmp / "b", dict(scn, compute_rms=False), 2, "threading")
+    finally:
+        shutil.rmtree(tmp, ignore_errors=True)
+    stats["runs"] += 2
+    inp = dict(scn, P=2, compute_rms=False)
+    tags = {"compute_rms": False, "ncv": 8}
+    if "error" in b:
+        ctx.fail("exception: compute_rms=False: decompress_destripe_cbin raised %s" % b["error"][:160], inp,
+                 dict(tags, clause="exception", error=b["error"].split(":")[0]))
+    elif "error" in a or not np.array_equal(a["raw"], b["raw"]):
+        ctx.fail("workers: compute_rms=False output differs from the compute_rms=True output", inp,
+                 dict(tags, clause="norms"))
+
+
+def numpy_sync_sweep(ctx):
+    """The sync word's arithmetic path (coq/C06/SyncCast.v) replayed with NumPy on all 65536 int16
+    values, with the conversion factors the real Reader has for the sync channel."""
+    import spikeglx
+    tmp = common.tmpdir("C06_run_")
+    try:
+        scn = {"ns": 1100, "ncv": 8, "seed": 1, "nbatch": 4096}
+        binf, _, _ = make_recording(tmp / "src", scn)
+        sr = spikeglx.Reader(binf)
+        s2v = sr.sample2volts
+        one = s2v[-1:]
+        sr.close()
+    finally:
+        shutil.rmtree(tmp, ignore_errors=True)
+    r = np.arange(-32768, 32768).astype(np.int16)[:, np.newaxis]
+    d = r.astype(np.float32)
+    d *= one                                              # Reader.read
+    chunk = np.r_[np.zeros((1, r.size)), d.T].T          # joined with the float64 voltage chunk
+    out = chunk * (1 / np.r_[s2v[:1], one])               # * intnorm
+    ok = (one.dtype == np.float32 and float(one[0]) == 1.0 and out.dtype == np.float64
+          and np.array_equal(out[:, 1].astype(np.int16), r[:, 0])
+          and np.array_equal(out[:, 1].astype(np.float32), r[:, 0].astype(np.float32)))
+    if not ok:
+        ctx.disagree("sync cast: the NumPy replay of the modelled path is not the identity on int16 "
+                     "(factor dtype %s value %r, product dtype %s)" % (one.dtype, float(one[0]), out.dtype),
+                     {"kind": "sync_cast"})
+    return 65536
+
+
 def run(ctx):
     os.environ["PYTHONWARNINGS"] = "ignore"       # loky worker processes inherit it
-    common.proof_obligations(ctx, whitelist=[])
+    common.proof_obligations(ctx, whitelist=sorted(common.STDLIB_AXIOMS), coqchk_admit=["IBL.C06.SyncSweep"])
     scns = gen_scenarios(ctx)
     cases, samples = [], []
     stats = {"runs": 0, "runs_threading": 0, "runs_loky": 0, "runs_append": 0, "idle_workers": 0,
@@ -780,6 +967,8 @@ def run(ctx):
     for s in scns:
         run_scenario(ctx, s, cases, stats, samples)
     short_stream(ctx, stats)
+    no_rms_run(ctx, stats)
+    stats["sync_sweep"] = numpy_sync_sweep(ctx)
     if ctx.thorough():
         # outside the property's quantifier, kept as a known finding (C06_more_workers_than_samples_refuted):
         # more workers than samples
@@ -792,6 +981,11 @@ def run(ctx):
     nontrivial = {(c[2]["ns"], c[2]["nbatch_run"], c[2]["P"], c[2]["ns2add"], bool(c[2]["append_run"]))
                   for c in cases if c[2]["P"] > 1 and c[1][0] > 1}
     ctx.measurements["max |output - batchwise reference| (LSB), bound 1"] = stats.get("max_lsb_diff_vs_reference", 0)
+    ctx.measurements["samples where saturation(raw) != saturation(tapered) in the generated data (must be > 0 for the "
+                     "raw-vs-tapered stage to be observable)"] = stats.get("sat_raw_vs_tapered_samples", 0)
+    ctx.measurements["saturated samples flagged by the reference (per batch, summed)"] = stats.get("sat_flagged_samples", 0)
+    if stats.get("sat_raw_vs_tapered_samples", 0) == 0:
+        ctx.disagree("generator: no sample distinguishes saturation(raw) from saturation(tapered)", {"kind": "generator"})
     dist = {"scenarios": len(scns), "runs": stats["runs"], "runs_threading": stats["runs_threading"],
             "runs_loky_processes": stats["runs_loky"], "runs_append": stats["runs_append"],
             "short_recordings_malformed_stream": stats["short_stream"],
@@ -824,6 +1018,7 @@ def replay(ctx, data):
         return 1
     scn = {k: inp[k] for k in ("ns", "nbatch", "ncv", "ns2add", "reject", "k_filter", "wrot", "nc_out", "dtype",
                                "sat", "seed", "append")}
+    scn["src"], scn["aspath"] = inp.get("src", "bin"), inp.get("aspath", True)
     scn["ps"] = sorted({1, inp.get("P", 1), inp.get("P_ref", 1)})
     scn["loky"] = [inp["P"]] if inp.get("backend") == "loky" else []
     if not inp.get("append_run"):
